@@ -337,4 +337,125 @@ def substXml (s : PStr) : PStr :=
     | some e => e.2
     | none => [ch]
 
+/-! ### entry points: resolve the `formatter=` argument, then render -/
+
+/-- which output method was called -/
+inductive Mode where
+  | decode                      -- `decode()`, `encode()`, `str()`, `output_ready()`
+  | contents                    -- `decode_contents()`, `encode_contents()`
+  | pretty (level : Nat)        -- `prettify()` = level 0, `decode(indent_level=level)`
+  | prettyContents (level : Nat) -- `decode_contents(indent_level=level)`
+deriving DecidableEq, Repr
+
+inductive Out where
+  | ok (s : PStr)
+  | keyError                    -- `formatter_for_name` raised
+  | badReceiver                 -- a contents method on a string (no such method)
+deriving DecidableEq, Repr
+
+def kidsOf : Node → Option (PStr × List Node)
+  | .tag nm _ _ _ _ ks => some (nm, ks)
+  | .str _ _ => none
+
+/-- an output method with an already resolved formatter -/
+def renderMode (c : Cfg) (interp : Subst → PStr → PStr) (mode : Mode) (parent : Option PStr) (n : Node) : Out :=
+  match mode with
+  | .decode => .ok (render c interp parent n)
+  | .pretty lv => .ok (pretty c interp lv parent n)
+  | .contents => match kidsOf n with
+    | some (nm, ks) => .ok (renderL c interp (some nm) ks)
+    | none => .badReceiver
+  | .prettyContents lv => match kidsOf n with
+    | some (nm, ks) => .ok (prettyL c interp lv (some nm) ks)
+    | none => .badReceiver
+
+/-- `Tag.decode(formatter=arg)` and friends (element.py:2370-2371 `if not isinstance(formatter, Formatter): formatter =
+    self.formatter_for_name(formatter)`), on an element of a tree of flavour `isXml` -/
+def entry (regH regX : List (Option PStr × Cfg)) (isXml : Bool) (arg : FmtArg) (interp : Subst → PStr → PStr) (mode : Mode)
+    (parent : Option PStr) (n : Node) : Out :=
+  match formatterForName regH regX isXml arg with
+  | .keyError => .keyError
+  | .ok c => renderMode c interp mode parent n
+
+/-! ### the flavour of an element: `PageElement._is_xml` (element.py:467-492)
+
+    `known_xml` is fixed when an element is constructed (`Some` when a builder made it or `is_xml=` was passed, `None` for
+    a hand-made `Tag(name=…)` / `NavigableString(…)`); `_is_xml` is a read-only walk from the element towards the root. -/
+
+/-- `chain` = `known_xml` of the element, of its parent, … up to the root; `rootAttr` = `getattr(root, "is_xml", False)`
+    (the `is_xml` of a `BeautifulSoup` root; `False` for a root that is a plain `Tag` or string) -/
+def isXmlOf : List (Option Bool) → Bool → Bool
+  | [], rootAttr => rootAttr
+  | some b :: _, _ => b
+  | none :: rest, rootAttr => isXmlOf rest rootAttr
+
+/-- a tree in which every element carries its `known_xml` -/
+inductive XNode where
+  | str (known : Option Bool) (kind : StrKind) (val : PStr)
+  | tag (known : Option Bool) (name pfx : PStr) (attrs : List (PStr × AttrVal)) (canBeEmpty pre : Bool) (kids : List XNode)
+deriving Repr
+
+mutual
+/-- forget the flags: what rendering looks at once the formatter is resolved -/
+def XNode.erase : XNode → Node
+  | .str _ k v => .str k v
+  | .tag _ n p as cbe pre ks => .tag n p as cbe pre (eraseL ks)
+def eraseL : List XNode → List Node
+  | [] => []
+  | k :: ks => k.erase :: eraseL ks
+end
+
+def XNode.known : XNode → Option Bool
+  | .str k _ _ => k
+  | .tag k _ _ _ _ _ _ => k
+
+def XNode.name? : XNode → Option PStr
+  | .str _ _ _ => none
+  | .tag _ n _ _ _ _ _ => some n
+
+def XNode.kids : XNode → List XNode
+  | .str _ _ _ => []
+  | .tag _ _ _ _ _ _ ks => ks
+
+/-- follow child indices from `n`; the result is the element reached, its parent's name, and the `known_xml` values from
+    that element up to `n` (innermost first); `acc`/`par` are the values for `n` itself -/
+def descend : XNode → List Nat → List (Option Bool) → Option PStr → Option (XNode × Option PStr × List (Option Bool))
+  | n, [], acc, par => some (n, par, n.known :: acc)
+  | n, i :: rest, acc, _ =>
+    match n.kids[i]? with
+    | some k => descend k rest (n.known :: acc) n.name?
+    | none => none
+
+/-- a tree together with what `getattr(root, "is_xml", False)` gives -/
+structure Doc where
+  root : XNode
+  rootAttr : Bool
+
+/-- an output method called on the element at `path` of `d` with `formatter=arg`: the flavour is found by the walk from
+    that element, at the time of the call -/
+def Doc.renderAt (regH regX : List (Option PStr × Cfg)) (d : Doc) (path : List Nat) (arg : FmtArg)
+    (interp : Subst → PStr → PStr) (mode : Mode) : Out :=
+  match descend d.root path [] none with
+  | none => .badReceiver
+  | some (n, par, chain) => entry regH regX (isXmlOf chain d.rootAttr) arg interp mode par n.erase
+
+/-- one step of a session: an output call (observed, changes nothing) or any edit of the documents -/
+inductive HOp where
+  | render (doc : Nat) (path : List Nat) (arg : FmtArg) (mode : Mode)
+  | edit (f : List Doc → List Doc)
+
+def HOp.isEdit : HOp → Bool
+  | .edit _ => true
+  | .render .. => false
+
+/-- run a session: the documents afterwards and the outputs of the output calls, in order -/
+def runSession (regH regX : List (Option PStr × Cfg)) (interp : Subst → PStr → PStr) : List Doc → List HOp → List Doc × List Out
+  | docs, [] => (docs, [])
+  | docs, .edit f :: ops => runSession regH regX interp (f docs) ops
+  | docs, .render d path arg mode :: ops =>
+    let r := runSession regH regX interp docs ops
+    (r.1, (match docs[d]? with
+            | some doc => doc.renderAt regH regX path arg interp mode
+            | none => .badReceiver) :: r.2)
+
 end BS.Formatter
